@@ -7,6 +7,7 @@
 (*   misdelivered  datagrams of this session seen at a wrong origin / foreign datagrams inside this session *)
 (*   replies       per sequence number: copies of the echo reply received by this client, correctly labelled *)
 (*   foreign_replies replies of other sessions / unlabelled / fabricated (e.g. empty) datagrams received     *)
+(*   tiny_*        the 0-, 1- and 2-byte datagrams every session sends at the end (sizes seen)               *)
 EXTENDS Naturals, Sequences, TLC, Json, IOUtils
 Rec == ndJsonDeserialize(IOEnv.UDP)
 Good(r) == /\ \A i \in 1..Len(r.at_origin) : r.at_origin[i] = 1
@@ -16,6 +17,9 @@ Good(r) == /\ \A i \in 1..Len(r.at_origin) : r.at_origin[i] = 1
            /\ Len(r.replies) = r.sent
            /\ r.foreign_replies = 0 /\ r.mislabelled = 0
            /\ r.fabricated_at_origin = 0
+           \* payloads of 0, 1 and 2 bytes (too small for a tag): each session gets its three echoes, the origin every one of them
+           /\ r.tiny_replies = <<0, 1, 2>>
+           /\ r.tiny_at_origin = r.tiny_expected_at_origin
 VARIABLE i
 Init == i = 1
 Next == i <= Len(Rec) /\ i' = i + 1
